@@ -242,12 +242,14 @@ InOrderInsertKeepsValid ==
 (* exports for replay, and by the events recorded from the real package.   *)
 (*   m = NoneV means "no measurement filter"; sorted / compact are 0 / 1.  *)
 (***************************************************************************)
-ReadOps == {"search", "count", "contains", "get", "select", "all", "len", "iter",
+ReadOps == {"search", "count", "contains", "get", "select", "all", "len", "iter", "repr",
             "get_measurements", "get_tag_keys", "get_tag_values", "get_field_keys",
             "get_field_values", "get_timestamps"}
 (* entry points wrapped in read_op (they rebuild an invalid index when     *)
-(* auto_index is on); len and iteration are served without it.             *)
-IndexingReads == ReadOps \ {"len", "iter"}
+(* auto_index is on); len, iteration and repr() are served without it.     *)
+(* repr(db) / repr(handle) print a point count only while the index is     *)
+(* valid: the logged result is that count, or NoneV when none is printed.  *)
+IndexingReads == ReadOps \ {"len", "iter", "repr"}
 
 SelectedBy(a, s) == CASE a.op \in {"remove", "update"} -> Sel(s, a.q, a.m)
                       [] a.op = "drop_measurement" -> AllPos(s, a.m)
@@ -305,6 +307,7 @@ Result(a, s) ==
     [] a.op = "select"   -> SelectRes(s, a.keys, a.q, a.m)
     [] a.op = "all"      -> AllRes(s, a.m, a.sorted = 1)
     [] a.op = "len"      -> LenRes(s, a.m)
+    [] a.op = "repr"     -> LenRes(s, a.m)
     [] a.op = "iter"     -> IterRes(s, a.m)
     [] a.op = "get_measurements" -> MeasurementsRes(s)
     [] a.op = "get_tag_keys"     -> TagKeysRes(s, a.m)
